@@ -20,7 +20,7 @@ RULE = (
 )
 TIERS = {"quick": {"shards": 8, "n": 2500, "budget_s": 200}, "thorough": {"shards": 16, "n": 20000, "budget_s": 2700}}
 FLOOR = {"quick": 1000, "thorough": 30000}
-REQUIRED_LABELS = {"quick": ["class-merge", "explicit-function_type", "src:docstring", "src:function-handshaped", "src:emitted", "src:text", "star-args", "live:function", "live:class", "json:$ref", "json:anyOf", "json:nullable", "json:items"], "thorough": []}
+REQUIRED_LABELS = {"quick": ["class-merge", "explicit-function_type", "src:docstring", "src:function-handshaped", "src:emitted", "src:text", "star-args", "live:function", "live:class", "json:$ref", "json:anyOf", "json:nullable", "json:items", "sql:class", "sql:table", "sql:pk+fk-on-one-column"], "thorough": []}
 ASSUMPTIONS = ["on ill-formed text (not derivable from the section grammar) the clauses 'name non-empty' and 'typ parses' are relaxed (P30); all other shape clauses stay"]
 TOK = [":param ", ":type ", ":return: ", ":rtype: ", ":cvar ", "Args:\n", "Returns:\n", "Raises:\n", "Kwargs:\n", "Parameters\n----------\n", "Returns\n-------\n", "alpha", "beta_x", "*args", "**kwargs", "(int)", " (str, optional)", "```int```", "```", ":", "\n", "  ", "    ", "Defaults to 5", "Defaults to ", ".", " or ", "int", "Optional[str]", " : ", "the value"]
 
@@ -89,7 +89,26 @@ def shape(ir, allow_empty_name=False, allow_bad_typ=False, allow_none_key=False)
 # ---------------------------------------------------------------------------------------------- case kinds
 @st.composite
 def case_strategy(draw):
-    kind = draw(st.sampled_from(["docstring", "docstring", "function", "function", "emitted", "emitted", "text", "class-merge", "live", "json-handshaped"]))
+    kind = draw(st.sampled_from(["docstring", "docstring", "function", "function", "emitted", "emitted", "text", "class-merge", "live", "json-handshaped", "sql-handshaped"]))
+    if kind == "sql-handshaped":
+        # SQLAlchemy models as people write them: every combination of the Column options on one column
+        n = draw(st.integers(1, 5))
+        ns = draw(st.lists(gen_ir.names.filter(lambda s: s not in ("metadata", "id")), min_size=n, max_size=n, unique=True))
+        form = draw(st.sampled_from(["class", "table"]))
+        cols = []
+        for a in ns:
+            args = [draw(st.sampled_from(["Integer", "String", "Boolean", "Float", "JSON", "Text", "String(32)", "Enum('a', 'b', name='%s')" % a, "LargeBinary", "BigInteger"]))]
+            if draw(st.integers(0, 2)) == 0:
+                args.append('ForeignKey("%s.%s")' % (draw(gen_ir.lit_member).replace("-", "_"), draw(st.sampled_from(["id", "key"]))))
+            for opt, val in (("primary_key", "True"), ("nullable", draw(st.sampled_from(["True", "False"]))), ("default", draw(st.sampled_from(["0", "'x'", "True", "None", "1.5"]))), ("doc", repr(draw(gen_ir.descr))), ("comment", repr(draw(gen_ir.descr))), ("index", "True"), ("unique", "True")):
+                if draw(st.integers(0, 2)) == 0:
+                    args.append("%s=%s" % (opt, val))
+            cols.append((a, args))
+        if form == "class":
+            lines = ["class Foo(Base):", '    """', "    The Foo model", '    """', '    __tablename__ = "foo"', ""] + ["    %s = Column(%s)" % (a, ", ".join(args)) for a, args in cols]
+        else:
+            lines = ["foo = Table(", '    "foo",', "    metadata,"] + ["    Column(%r, %s)," % (a, ", ".join(args)) for a, args in cols] + ['    comment="The Foo model",', ")"]
+        return {"kind": "sql-handshaped", "form": form, "src": "\n".join(lines) + "\n", "names": ns, "both": any("primary_key=True" in " ".join(args) and "ForeignKey" in " ".join(args) for _a, args in cols)}
     if kind == "json-handshaped":
         # JSON-schemas as people write them (not only as cdd emits them): $ref, anyOf, nullable, format, arrays,
         # properties without type or description, `required` any subset
@@ -242,7 +261,10 @@ def oracle(case):
             return r
     try:
         with core.quiet():
-            if kind == "json-handshaped":
+            if kind == "sql-handshaped":
+                node = ast.parse(case["src"]).body[0]
+                ir = cdd.sqlalchemy.parse.sqlalchemy(node) if case["form"] == "class" else cdd.sqlalchemy.parse.sqlalchemy_table(node)
+            elif kind == "json-handshaped":
                 ir = cdd.json_schema.parse.json_schema(json.loads(json.dumps(case["schema"])))
             elif kind == "live":
                 obj = getattr(mod, top.name)
@@ -300,6 +322,13 @@ def oracle(case):
             errs = [e for e in errs if not e.startswith("name-star")]
         if case["star"]:
             r.label("star-args")
+    elif kind == "sql-handshaped":
+        errs = shape(ir, allow_none_key=is_open("P29"))
+        if list(ir["params"]) != case["names"]:
+            errs.append("names:%s->%s" % (case["names"], list(ir["params"])))
+        r.label("sql:" + case["form"])
+        if case["both"]:
+            r.label("sql:pk+fk-on-one-column")
     elif kind == "json-handshaped":
         errs = shape(ir)
         want = list(case["schema"]["properties"])
